@@ -176,7 +176,14 @@ let monitor_obs (m : mon) (o : obs) =
       (match Hashtbl.find_opt m.terms id with
        | Some old when t < old -> violate m "C08" (Printf.sprintf "term of node %s went from %d to %d" id old t)
        | _ -> ());
-      Hashtbl.replace m.terms id (max t (try Hashtbl.find m.terms id with Not_found -> 0))) up;
+      Hashtbl.replace m.terms id (max t (try Hashtbl.find m.terms id with Not_found -> 0));
+      (* a vote cast in a term is never forgotten or changed while the node stays in that term,
+         across crashes and restarts *)
+      let key = "vote-of/" ^ id ^ "/" ^ string_of_int t and v = field s "vote" in
+      (match Hashtbl.find_opt m.votes key with
+       | Some old when old <> v ->
+           violate m "C08" (Printf.sprintf "node %s voted for %s in term %d and now shows vote %s for that term" id old t v)
+       | _ -> if v <> "-" then Hashtbl.replace m.votes key v)) up;
   List.iter (fun (_, _, dst, st, req, resp) ->
       match String.split_on_char ' ' req, String.split_on_char '/' resp with
       | ["RV"; cand; term; _; _; "0"], [rterm; "1"] when st = "A" ->
@@ -509,4 +516,113 @@ let run_traces (files : string list) =
   List.iter print_endline (List.rev !out_lines);
   Printf.printf "TRACES traces=%d steps=%d mismatches=%d\n" !traces !steps !mismatches
 
-let run (kind : string) (_ : string array) : string = failwith ("unknown kind " ^ kind)
+(* ---------- handler-level cases (HSEQ) ---------- *)
+let split_top (s : string) : string list =
+  if s = "-" then [] else begin
+    let parts = ref [] and depth = ref 0 and cur = Buffer.create 32 in
+    String.iter (fun c ->
+        if c = '{' then incr depth; if c = '}' then decr depth;
+        if c = ',' && !depth = 0 then (parts := Buffer.contents cur :: !parts; Buffer.clear cur)
+        else Buffer.add_char cur c) s;
+    parts := Buffer.contents cur :: !parts;
+    List.rev !parts
+  end
+
+let parse_conf (s : string) : config =
+  let i = String.index s '{' in
+  let idx = n_of_s (String.sub s 0 i) in
+  let body = String.sub s (i + 1) (String.length s - i - 2) in
+  let ms = if body = "" then [] else List.map (fun kv ->
+      match String.split_on_char ':' kv with
+      | [k; v] -> (n_of_s k, v = "1") | _ -> failwith "bad conf") (String.split_on_char ',' body) in
+  { c_index = idx; c_members = ms }
+
+let parse_entry (s : string) : entry =
+  match String.index_opt s ':' with
+  | None -> failwith ("bad entry " ^ s)
+  | Some i ->
+      let idx = n_of_s (String.sub s 0 i) in
+      let rest = String.sub s (i + 1) (String.length s - i - 1) in
+      let j = String.index rest ':' in
+      let term = n_of_s (String.sub rest 0 j) in
+      let k = String.sub rest (j + 1) (String.length rest - j - 1) in
+      let kind = match k.[0] with
+        | 'n' | 'p' -> KNoop
+        | 'o' -> KOp (n_of_s (String.sub k 1 (String.length k - 1)))
+        | 'c' -> KConf (parse_conf (String.sub k 1 (String.length k - 1)))
+        | _ -> failwith ("bad kind " ^ k) in
+      { e_index = idx; e_term = term; e_kind = kind }
+
+let parse_data (s : string) : n list =
+  if s = "-" then []
+  else if s.[0] = 'x' then
+    List.init ((String.length s - 1) / 2) (fun i -> n_of_int (int_of_string ("0x" ^ String.sub s (1 + 2 * i) 2)))
+  else List.concat_map (fun v ->
+      let v = int_of_string v in
+      [n_of_int ((v lsr 24) land 255); n_of_int ((v lsr 16) land 255); n_of_int ((v lsr 8) land 255); n_of_int (v land 255)])
+      (String.split_on_char '.' s)
+
+let parse_request (toks : string list) : request =
+  match toks with
+  | ["AE"; l; t; c; pi; pt; es] ->
+      ReqAE { ae_leader = n_of_s l; ae_term = n_of_s t; ae_commit = n_of_s c; ae_prev_index = n_of_s pi;
+              ae_prev_term = n_of_s pt; ae_entries = List.map parse_entry (split_top es) }
+  | ["RV"; c; t; li; lt; pv] ->
+      ReqRV { rv_cand = n_of_s c; rv_term = n_of_s t; rv_last_index = n_of_s li; rv_last_term = n_of_s lt; rv_prevote = pv = "1" }
+  | ["IS"; l; t; lii; lit; conf; off; data; dn] ->
+      ReqIS { is_leader = n_of_s l; is_term = n_of_s t; is_lii = n_of_s lii; is_lit = n_of_s lit; is_conf = parse_conf conf;
+              is_offset = n_of_s off; is_bytes = parse_data data; is_done = dn = "1" }
+  | _ -> failwith ("bad request " ^ String.concat " " toks)
+
+let hseq_conf = { c_index = N0; c_members = [(n_of_int 0, true); (n_of_int 1, true); (n_of_int 2, true)] }
+
+let node_of_spec (now : n) (spec : string) : node =
+  let f k = field spec k in
+  let base = mk_node N0 (n_of_int 4) (n_of_int 2) in
+  let role = match f "role" with "L" -> Leader | "F" -> Follower | "P" -> PreCandidate | "C" -> Candidate | _ -> Shutdown in
+  let vote = if f "vote" = "-" then None else Some (n_of_s (f "vote")) in
+  let term = n_of_s (f "term") in
+  { base with
+    n_role = role; n_term = term; n_vote = vote; n_pterm = term; n_pvote = vote;
+    n_commit = n_of_s (f "commit"); n_applied = n_of_s (f "applied"); n_lii = n_of_s (f "lii"); n_lit = n_of_s (f "lit");
+    n_log = List.map parse_entry (split_top (f "log"));
+    n_conf = Some hseq_conf; n_cconf = (if f "cconf" = "1" then Some hseq_conf else None);
+    n_followers = List.map (fun (id, _) -> (id, fstate0)) hseq_conf.c_members;
+    n_contact = (if f "contactold" = "1" then N.sub now (n_of_int 10) else now);
+    n_lease = (if f "lease" = "1" then N.add now (n_of_int 1) else now) }
+
+let split_on_sep (sep : string) (toks : string list) : string list list =
+  let rec go cur acc = function
+    | [] -> List.rev (List.rev cur :: acc)
+    | t :: r -> if t = sep then go [] (List.rev cur :: acc) r else go (t :: cur) acc r in
+  go [] [] toks
+
+let run_hseq (a : string array) : string =
+  let groups = split_on_sep ";;" (Array.to_list a) in
+  match groups with
+  | [] -> "EMPTY"
+  | spec :: steps ->
+      let now = ref (n_of_int 100) in
+      let nd = ref (node_of_spec !now (String.concat " " spec)) in
+      let outs = ref [] in
+      List.iter (fun toks ->
+          match toks with
+          | ["BUDGET"; k] -> nd := { !nd with n_budget = Some (n_of_s k) }
+          | ["CRASHRESTART"; dt] ->
+              nd := restart_after_crash !now (crash !nd);
+              outs := ("RESTARTED ## " ^ node_s !now !nd) :: !outs;
+              now := N.add !now (n_of_s dt)
+          | _ ->
+              if !nd.n_frozen then outs := "- ## frozen" :: !outs
+              else begin
+                let ((n', resp), parked) = run_handler !now !nd (parse_request toks) in
+                nd := n';
+                let r = if n'.n_frozen then "-" else if parked then "WAIT" else (match resp with None -> "ERR" | Some p -> resp_s p) in
+                outs := (r ^ " ## " ^ node_s !now n') :: !outs
+              end) steps;
+      String.concat " ;; " (List.rev !outs)
+
+let run (kind : string) (a : string array) : string =
+  match kind with
+  | "HSEQ" -> run_hseq a
+  | _ -> failwith ("unknown kind " ^ kind)
